@@ -26,6 +26,15 @@ CLAIMED = {
  'C10': dict(text="Theorems C10_two_pass (for every packet value the Go-shaped two-pass encoder of Mq.Fill — fill(buf,i) with the Go guards, dry run on the nil slice, real pass on a buffer of that size — produces exactly Packet.encode and width() is its length; Proofs.Fill: Sound/two_pass for every wire type incl. the per-byte-guarded vbint loop, Proofs.FillPackets: every packet section), C10_frame_shape (1 + remaining-length field + remaining length), C10_writeTo (exactly one Write offered the whole frame; count and error are the writer's), C10_count, C10_short_write, C10_undefined (error, no Write), C10_defined_types, C10_string_size (String prints the dry-run width = frame length). Correspondence: ENC/WR/STR of API-built, malformed-but-constructible and zero-value packets against scripted writers; the driver executes the Go-shaped fillers.",
              note="io.Writer is the script {accept, err}; a writer violating its contract is out of scope. Model/code tie by differential testing.",
              technique="Lean 4 refinement proof (Go-shaped fill(buf,i) fillers refine list-append encoding; dry run = real pass) + differential correspondence", ref="§7 C10"),
+ 'C11': dict(text="Theorems C11_range_singleton (map iteration modelled as an arbitrary permutation: a range over at most one entry does not depend on it), C11_ranged_properties (SUBSCRIBE/SUBACK/UNSUBACK), C11_two_entries_differ (why the bound matters), C11_repeatable (any interleaving of read-only operations: every WriteTo yields Packet.encode, every accessor snapshot is the same), and the source facts C11_map_ranges / C11_readonly, regenerated from /repo by the go/ssa+go/ast extractor on every run and re-checked by lake build (Proofs.Tie.*): every range over a map on an encoding path ranges over a literal of at most one entry; no read-only operation writes to the packet or package state. Correspondence: repeated ENC in two processes with STR/DUMP/WF/VIEW in between.",
+             note="The effect classification of the extractor (conservative may-analysis over SSA) is trusted; see DESIGN.md §11.",
+             technique="Lean 4 theorems + facts regenerated from the source by a translator (go/ssa effect summary, go/ast map-range sites) checked by decide + differential correspondence", ref="§7 C11"),
+ 'C13': dict(text="Theorems C13_confined_no_race, C13_shared_constant, C13_reads_initial: in every interleaving of any number of goroutines whose operations write only private memory there is no data race, shared memory never changes and every read of it returns the initial value (each operation computes what it computes alone); C13_mq_confined: the effect summary regenerated from /repo's source (read-only operations and ReadPacket write nothing but memory they allocate and their own stream; no write through a package-level variable; _LEN never assigned) satisfies the hypothesis. Dynamic support: goroutines performing read-only operations on shared packets under the Go race detector, every concurrent WriteTo compared with the sequential bytes.",
+             note="Partial: soundness of the SSA effect classification and the Go memory model are trusted, not proved; the race detector supports the model, it is not a proof. Schedules found by it are not exactly replayable.",
+             technique="Lean 4 theorem over an abstract interleaving semantics + effect summary regenerated from the source (go/ssa) checked by decide + race-detector stress", ref="§7 C13"),
+ 'C14': dict(text="Theorems C14_pool_frame, C14_bystander (over whole histories), C14_scribble, C14_history_free over the value-semantics model of a pool of packets, and the source facts C14_no_retain (no UnmarshalBinary of any type and not ReadPacket stores a pointer into its input where it outlives the call) and C14_no_shared_state (no exported operation writes through a package-level variable, mqtt5 included), regenerated from /repo by the go/ssa extractor on every run. Correspondence: pool histories (decode, scribble over the decoder input, set, encode) with all packets viewed after every step.",
+             note="That value semantics is the right model of the Go code is exactly what the source facts and the scribble correspondence establish; the SSA retain analysis is trusted.",
+             technique="Lean 4 frame theorems + facts regenerated from the source by a translator (go/ssa retain/effect analysis) checked by decide + differential correspondence with input scribbling", ref="§7 C14"),
  'C12': dict(text="Theorems C12_connect_flags (over every setter history from NewConnect: user-name/password flags iff non-empty, will flag iff a will is attached, will QoS/retain mirror the message, reserved bit clear), C12_connect_step, C12_clean_start, C12_session_present(+_frame), C12_publish_dup_retain, C12_publish_qos; bit facts are complete kernel-checked enumerations of the 256 flag bytes. Scalar setters are record updates in the model; correspondence compares every accessor after every step of generated histories.",
              note="The model's plain setters are last-write-wins by construction; that they match the Go setters is established by differential testing of histories only.",
              technique="Lean 4 invariant by induction over setter histories + exhaustive bit tables + differential correspondence", ref="§7 C12"),
@@ -72,6 +81,7 @@ def main():
                    source_commits=['6edf761'], add_only=True),
         engines=[dict(name='lean-model', path='lean', serves_properties=sorted(CLAIMED), kind_free_text='Lean 4 model of the codec (Mq.*), proofs (Proofs.*), property theorems (Props.*), compiled line-protocol driver'),
                  dict(name='go-harness', path='harness', serves_properties=sorted(CLAIMED), kind_free_text='Go executor of the line protocol against /repo (build tag verif), seeded generators, killable worker'),
+                 dict(name='fact-extractor', path='extract', serves_properties=[p for p in ['C03', 'C10', 'C11', 'C13', 'C14', 'C19'] if p in CLAIMED], kind_free_text='Go translator (go/ast, go/types, go/ssa over /repo) regenerating lean/Mq/Generated/Facts.lean on every run: property tables, fillProp order, constants, stringer tables, map-range sites, effect and retain summaries; Proofs/Tie/*.lean re-checks them against the model'),
                  dict(name='judges', path='lib/judges.py', serves_properties=sorted(CLAIMED), kind_free_text='per-property verdict logic over implementation/model output streams')],
         checks=checks,
         notes='One entry point: ./check <ID> [--tier quick|thorough] [--replay path]; VERIF_SEED and VERIF_TIER are honoured. See DESIGN.md.',
